@@ -190,7 +190,9 @@ class XMLDocParser:
 
             # Remember which parameters to ignore, if any
             for i in range(len(method_args_names), num_tot_params):
-                ignored_params.append(params[i].find("declname").text)
+                ignored_param = params[i].find("declname")
+                if ignored_param is not None:
+                    ignored_params.append(ignored_param.text)
 
         return member_defs, ignored_params
 
